@@ -2,6 +2,7 @@
 package props
 
 import (
+	_ "verif/sim/c02"
 	_ "verif/sim/c03"
 	_ "verif/sim/c08"
 	_ "verif/sim/c17"
